@@ -876,6 +876,15 @@ def gen_grid():
                                "part_file": None, "api": "func", "path": "abs", "explicit": True, "abort_kind": "exc"}
                         yield {"cfg": cfg, "umask": 0o022, "init": init, "body": body, "body_exc": False,
                                "sched": [], "crash": [0, 3, 6, 9], "retry": False}
+    # eight failure paths: an injected error at flush / fsync / close / publication, both publication styles
+    for ow in (True, False):
+        for k in (4, 5, 6, 7):
+            cfg = {"overwrite": ow, "overwrite_part": False, "rm_part_on_exc": True, "file_perms": None,
+                   "text_mode": False, "buffering": -1, "part_file": None, "api": "func", "path": "abs",
+                   "explicit": True, "abort_kind": "exc"}
+            yield {"cfg": cfg, "umask": 0o022, "init": ({"dest": ["OLD", 0o640]} if ow else {}),
+                   "body": [["w", "hello"], ["w", " world"]], "body_exc": False,
+                   "sched": [[k, "fault", EIO]], "crash": [k, k + 1], "retry": False}
 
 
 def translators(repo):
@@ -883,7 +892,7 @@ def translators(repo):
     for case in gen_grid():
         obs = run_impl(case)                      # any exception propagates: fail closed
         terms.append(to_coq(case, obs))
-    if len(terms) != 32:
+    if len(terms) != 40:
         raise RuntimeError("grid changed size")
     text = ("(* generated by harness/c04.py from the current source of boltons.fileutils: do not edit *)\n"
             + IMPORTS + "\n"
